@@ -13,8 +13,8 @@ computations, not of their values.
    any plaintext column — the GGSW case), for GLWE (`glwe_decompress_eq`) and for every matrix routine
    built on the shared loop (`compressed_cells_eq`: GGLWE, GGSW, and through them switching /
    automorphism / tensor keys, which call `gglwe_compressed_encrypt_sk` on the caller's object).
-   FALSE for the GGLWE→GGSW key as the code is: the seeds are written to a clone and lost
-   (`g2g_seeds_lost_counterexample`); its decompression trait has no implementation for `Module`. -/
+   The GGLWE→GGSW key (two levels of `branch()`) is reduced to the same loop by `g2g_subkeys_eq`
+   (after the repairs of the two findings: seeds stored in the object, decompression implemented). -/
 -/
 import Poulpy.Lemmas.CoreCmp
 
@@ -70,15 +70,19 @@ example : Core.decompressCell 3 2 2 (fun s => s ++ [5, 6, 7, 0, 1, 2, 3, 4, 9, 8
 /-! ### GLWE -/
 
 /-- **`decompress_glwe ∘ glwe_compressed_encrypt_sk = glwe_encrypt_sk`** with `source_xa = Source::new(seed)` -/
-theorem glwe_decompress_eq (bits b k n size kxe rank : Nat) (pt : Option Col) (sk : List Poly) (seedStream : List Nat) (e : Poly)
-    (cc : Core.GLWECompressed) (h : Core.glweEncryptCompressed bits b k n size kxe rank pt sk seedStream e = some cc) :
-    (Core.decompressGlwe cc).map (·.cols) = (Core.glweEncryptSkS bits b k n size kxe rank pt sk seedStream e).map (·.1.cols) := by
+theorem glwe_decompress_eq (bits b k n size kxe rank : Nat) (pt : Option Col) (ptB : Nat) (sk : List Poly) (seedStream : List Nat) (e : Poly)
+    (cc : Core.GLWECompressed) (h : Core.glweEncryptCompressed bits b k n size kxe rank pt ptB sk seedStream e = some cc) :
+    (Core.decompressGlwe cc).map (·.cols) = (Core.glweEncryptSkS bits b k n size kxe rank pt ptB sk seedStream e).map (·.1.cols) := by
   unfold Core.glweEncryptCompressed at h
   unfold Core.glweEncryptSkS
   split at h
   · simp at h
   · rename_i hr
     rw [if_neg hr]
+    split at h
+    · simp at h
+    rename_i hok
+    rw [if_neg hok]
     cases hs : Core.encryptSkStream bits b n size kxe rank (pt.map (fun p => (p, 0))) sk seedStream e with
     | none => simp [hs] at h
     | some q =>
@@ -92,7 +96,7 @@ theorem glwe_decompress_eq (bits b k n size kxe rank : Nat) (pt : Option Col) (s
       | none => simp [hd] at hc
       | some r => simp [hd] at hc ⊢; exact hc
 
-example : (Core.glweEncryptCompressed 64 3 6 2 2 5 1 (some [[1, 2]]) [[1, -1]] [9, 1, 7, 3, 5] [1, -1]).isSome := by decide
+example : (Core.glweEncryptCompressed 64 3 6 2 2 5 1 (some [[1, 2]]) 3 [[1, -1]] [9, 1, 7, 3, 5] [1, -1]).isSome := by decide
 
 /-! ### matrices of cells -/
 
@@ -181,18 +185,65 @@ theorem ggsw_seed_index (b n size dsize rank dnum : Nat) (pt : Poly) (i : Nat) :
 
 example : (Core.gglweDescs 3 2 2 1 2 2 [[1, 0], [0, 1]]).map (·.1) = [0, 2, 1, 3] := by decide
 
-/-! ### the GGLWE→GGSW key loses its seeds (finding) -/
+/-! ### the GGLWE→GGSW key: two levels of branching -/
 
-/-- **the statement is false for `GGLWEToGGSWKeyCompressed` as the code is**: the seeds drawn for the
-cells are written into a clone of the seed vector; the stored seeds stay `0`.  With any `expand`
-that distinguishes the seeds, the stored cell decompresses to something else than the standard
-encryption under the seed that was used (here: a toy `expand`, one cell, N = 1). -/
-theorem g2g_seeds_lost_counterexample :
-    ∃ cells, Core.gglweEncryptCompressed 64 3 1 1 3 1 1 1 1 [[1]] [[1]] (fun s => s.map (· + 1)) [0, 0, 0, 0, 0, 0, 0, 0] [[0]] = some cells ∧
-      ∃ c c0, Core.storedCell cells 0 = some c ∧ Core.storedCell (Core.g2gStoredSeeds cells) 0 = some c0 ∧
-        Core.decompressCell 3 1 1 (fun s => s.map (· + 1)) c0 ≠ Core.decompressCell 3 1 1 (fun s => s.map (· + 1)) c := by
-  refine ⟨_, rfl, ?_⟩
-  refine ⟨_, _, rfl, rfl, ?_⟩
-  decide
+/-- **`GGLWEToGGSWKeyCompressed`** (after the repair that stores the seeds in the object): sub-key `i`
+is the compressed GGLWE of its plaintext columns under the seed that is the `i`-th branch of
+`Source::new(seed_xa)` (words `4i … 4i+3`), with the error stream continuing where sub-key `i−1`
+stopped — so every cell of every sub-key falls under `compressed_cells_eq`. -/
+theorem g2g_subkeys_eq (bits b n size kxe rank dnum dsize : Nat) (sk : List Poly) (expand : List Nat → List Nat) :
+    ∀ (pts : List (List Poly)) (top : List Nat) (es : List Poly) (out : List (List (Nat × Core.CellC))),
+      Core.g2gLoop bits b n size kxe rank dnum dsize sk expand pts top es = some out →
+      out.length = pts.length ∧
+      ∀ (i : Nat) (pti : List Poly), pts[i]? = some pti →
+        ∃ cells, out[i]? = some cells ∧
+          Core.gglweEncryptCompressed bits b n size kxe rank rank dnum dsize pti sk expand ((top.drop (4 * i)).take 4)
+            (es.drop ((out.take i).map List.length).sum) = some cells := by
+  intro pts
+  induction pts with
+  | nil => intro top es out h; simp [Core.g2gLoop] at h; subst h; simp
+  | cons p0 rest ih =>
+    intro top es out h
+    unfold Core.g2gLoop at h
+    cases hn : Sampling.newSeed top with
+    | none => simp [hn] at h
+    | some q =>
+      obtain ⟨seed, top'⟩ := q
+      simp only [hn] at h
+      cases hc : Core.gglweEncryptCompressed bits b n size kxe rank rank dnum dsize p0 sk expand seed es with
+      | none => simp [hc] at h
+      | some cells =>
+        simp only [hc] at h
+        cases hr : Core.g2gLoop bits b n size kxe rank dnum dsize sk expand rest top' (es.drop cells.length) with
+        | none => simp [hr] at h
+        | some out' =>
+          simp only [hr, Option.some.injEq] at h
+          subst h
+          obtain ⟨il, ic⟩ := ih top' (es.drop cells.length) out' hr
+          have hseed : seed = top.take 4 ∧ top' = top.drop 4 := by
+            match top, hn with
+            | a :: b' :: c :: d :: r, hn => simp [Sampling.newSeed] at hn; simp [hn.1.symm, hn.2.symm]
+          refine ⟨by simp [il], ?_⟩
+          intro i pti hp
+          cases i with
+          | zero =>
+            simp only [List.getElem?_cons_zero, Option.some.injEq] at hp
+            subst hp
+            exact ⟨cells, by simp, by simpa [hseed.1] using hc⟩
+          | succ j =>
+            simp only [List.getElem?_cons_succ] at hp
+            obtain ⟨cs, h1, h2⟩ := ic j pti hp
+            refine ⟨cs, by simpa using h1, ?_⟩
+            rw [hseed.2, List.drop_drop, List.drop_drop] at h2
+            have e1 : 4 + 4 * j = 4 * (j + 1) := by omega
+            have e2 : cells.length + ((out'.take j).map List.length).sum = (((cells :: out').take (j + 1)).map List.length).sum := by
+              simp
+            rw [e1, e2] at h2
+            exact h2
+
+/-- non-vacuity: two sub-keys, one cell each (N = 1, toy `expand`) -/
+example : (Core.g2gEncryptCompressed 64 3 1 1 3 1 1 1 [[[1]], [[0]]] [[1]] (fun s => s.map (· + 1) ++ [7, 7, 7, 7, 7])
+    [0, 0, 0, 0, 1, 1, 1, 1, 2] [[0], [1]]).map (fun o => o.map (fun c => c.map (fun x => x.2.seed)))
+    = some [[[2, 2, 2, 2]], [[3, 3, 3, 3]]] := by decide
 
 end C19
